@@ -115,6 +115,8 @@ inductive Cmd
   | setCursorShape (k : Nat)
   | scrollToPrompt
   | flush
+  /-- `ask_for_cpr()` (only `Renderer.request_absolute_cursor_position`) -/
+  | askCpr
 deriving DecidableEq, Repr
 
 /-- `if c in zero_width_escapes_row: write_raw(zero_width_escapes_row[c])` -/
@@ -457,7 +459,7 @@ def Term.putGlyph (t : Term) (c : Char) (k : Nat) : Term :=
 def Term.putChar (cw : Char → Nat) (t : Term) (c : Char) : Term :=
   if c = '\r' then { t with col := 0 }
   else if c = '\n' then t.lineFeed
-  else if c = '\x08' then { t with col := t.col - 1 }
+  else if c = '\x08' then { t with col := t.col - 1, oob := t.oob || decide (t.col < 1) }
   else if c.toNat < 32 ∨ c.toNat = 127 then t
   else if cw c = 0 then t
   else t.putGlyph c (cw c)
